@@ -10,11 +10,11 @@ open YV YV.Y YV.SC YV.C
     (IsConfig, IsState and their Include / Exclude combinations): if the unfiltered compile succeeds, the
     filtered compile succeeds and yields exactly the unfiltered tree pruned top-down — every surviving node
     with the same attributes, no error for a choice whose default case went away with the choice. -/
-theorem C20_filter_is_prune (f : Attr → Bool) (hf : CfgOnly f) (feat : List Tok) (top : List A) (full : List CN)
-    (hw : wfKids top = true) (h : compile keepAll feat top = .ok full) :
-    compile f feat top = .ok (pruneKids f full) := by
+theorem C20_filter_is_prune (f : Attr → Bool) (hf : CfgOnly f) (env : FeatEnv) (top : List A) (full : List CN)
+    (hw : wfKids top = true) (h : compile keepAll env top = .ok full) :
+    compile f env top = .ok (pruneKids f full) := by
   unfold compile at h ⊢
-  cases hk : buildKids keepAll feat {} top with
+  cases hk : buildKids keepAll env {} top with
   | error e => simp [hk] at h
   | ok ks =>
     simp only [hk, ebind_ok] at h
@@ -23,7 +23,7 @@ theorem C20_filter_is_prune (f : Attr → Bool) (hf : CfgOnly f) (feat : List To
     | ok u =>
       simp only [hn, ebind_ok, epure, Except.ok.injEq] at h
       subst h
-      rw [buildKids_prune f hf feat top {} ks hw hk]
+      rw [buildKids_prune f hf env top {} ks hw hk]
       simp only [ebind_ok, checkNames_prune hn, epure]
 
 /-- the filters of compile_filters.go are of that form -/
@@ -42,11 +42,11 @@ theorem C20_prune_topdown (f : Attr → Bool) (a : Attr) (kids r : List CN) (h :
 def demo : List A :=
   [.container [99] {} false [.choice [1] {} false (some [2]) [.case [2] {} [.leaf [3] { cfg := some false } false none]]]]
 
-example : (compile keepAll [] demo).isOk = true := by
-  simp [compile, demo, buildKids, build, ignored, A.meta, inherit, getStatus, getConfig, keepAll, checkNames, firstDup,
+example : (compile keepAll {} demo).isOk = true := by
+  simp [compile, demo, buildKids, build, ignoredM, iffLoop, A.meta, inherit, getStatus, getConfig, keepAll, checkNames, firstDup,
     flatNames, flatCaseNames, CN.attr, Except.isOk, Except.toBool]
-example : compile (fun a => !a.cfg) [] demo = .ok [] := by
-  simp [compile, demo, buildKids, build, ignored, A.meta, inherit, getStatus, getConfig, checkNames, firstDup,
+example : compile (fun a => !a.cfg) {} demo = .ok [] := by
+  simp [compile, demo, buildKids, build, ignoredM, iffLoop, A.meta, inherit, getStatus, getConfig, checkNames, firstDup,
     flatNames, flatCaseNames, CN.attr]
 
 end YV.Props.C20
